@@ -889,6 +889,18 @@ def _check_coupled(ctx, case, name, alg, rec, fcalls, pcalls, adds):
         model = ctx.ask("optd", core.qvec(v0), str(1 if refined else q))
         if model not in ("err", "bad-op", "empty"):
             mp = core.parse_nats(model.split(" ")[0])
+            if mp == pos and not refined:
+                # whole step through the Lean model `Acq.evaluatingStep`: candidates and the data afterwards
+                obs = [[] for _ in rows]
+                for p_, y in zip(pos, np.asarray(Yq, dtype=float)):
+                    obs[p_] = list(y)
+                old, new = snap["data"], rec["after"]
+                ans = ctx.ask("step", str(alg.model.input_dim), core.qmat(x0), core.qvec(v0), str(q), core.qmat(obs),
+                              core.qmat(old["X"]), core.qmat(old["Y"]))
+                if ans != core.qmat(Xq) + " " + core.qmat(new["X"]) + " " + core.qmat(new["Y"]):
+                    _viol(ctx, "step-model", f"{name}: candidates / training data after the step differ from the "
+                          "Lean model of one evaluating() step", case, kind="F", detail={"lean": ans[:300]})
+                ctx.count("run_step_model_checked")
             if mp != pos:
                 if len(set(v0)) == len(v0):
                     _viol(ctx, "batch-positions", f"{name}: tie-free values but the batch differs from the model's",
